@@ -88,4 +88,17 @@ theorem text_splitIntoChunks_ok : Oidc.Shapes.Text_splitIntoChunks := by unfold 
 theorem text_SessionData_GetAuthenticated_ok : Oidc.Shapes.Text_SessionData_GetAuthenticated := by unfold Oidc.Shapes.Text_SessionData_GetAuthenticated; rfl
 theorem text_SessionData_SetAuthenticated_ok : Oidc.Shapes.Text_SessionData_SetAuthenticated := by unfold Oidc.Shapes.Text_SessionData_SetAuthenticated; rfl
 
+
+/-! ## Program text of the helpers these theorems also rest on (constructors, accessors, token endpoint, configuration) -/
+theorem text_SessionData_GetCSRF_ok : Oidc.Shapes.Text_SessionData_GetCSRF := by unfold Oidc.Shapes.Text_SessionData_GetCSRF; rfl
+theorem text_SessionData_SetCSRF_ok : Oidc.Shapes.Text_SessionData_SetCSRF := by unfold Oidc.Shapes.Text_SessionData_SetCSRF; rfl
+theorem text_SessionData_GetNonce_ok : Oidc.Shapes.Text_SessionData_GetNonce := by unfold Oidc.Shapes.Text_SessionData_GetNonce; rfl
+theorem text_SessionData_SetNonce_ok : Oidc.Shapes.Text_SessionData_SetNonce := by unfold Oidc.Shapes.Text_SessionData_SetNonce; rfl
+theorem text_SessionData_GetCodeVerifier_ok : Oidc.Shapes.Text_SessionData_GetCodeVerifier := by unfold Oidc.Shapes.Text_SessionData_GetCodeVerifier; rfl
+theorem text_SessionData_SetCodeVerifier_ok : Oidc.Shapes.Text_SessionData_SetCodeVerifier := by unfold Oidc.Shapes.Text_SessionData_SetCodeVerifier; rfl
+theorem text_SessionData_GetEmail_ok : Oidc.Shapes.Text_SessionData_GetEmail := by unfold Oidc.Shapes.Text_SessionData_GetEmail; rfl
+theorem text_SessionData_SetEmail_ok : Oidc.Shapes.Text_SessionData_SetEmail := by unfold Oidc.Shapes.Text_SessionData_SetEmail; rfl
+theorem text_SessionData_GetIncomingPath_ok : Oidc.Shapes.Text_SessionData_GetIncomingPath := by unfold Oidc.Shapes.Text_SessionData_GetIncomingPath; rfl
+theorem text_SessionData_SetIncomingPath_ok : Oidc.Shapes.Text_SessionData_SetIncomingPath := by unfold Oidc.Shapes.Text_SessionData_SetIncomingPath; rfl
+
 end Oidc.Props.C07
